@@ -30,9 +30,15 @@ Proof. exact shapes_state. Qed.
 Theorem C16_paint_event : forall res run_form s,
   out (apply_op res run_form KB [] s) = EPath (gs s) true true false (curpath s) (devctm s) :: out s /\
   out (apply_op res run_form Kfstar [] s) = EPath (gs s) false true true (curpath s) (devctm s) :: out s /\
-  out (apply_op res run_form Ks [] s) = EPath (gs s) true false false (curpath s ++ [SegH]) (devctm s) :: out s /\
+  out (apply_op res run_form Ks [] s) = EPath (gs s) true false false (close_path (curpath s)) (devctm s) :: out s /\
   out (apply_op res run_form Kn [] s) = out s.
 Proof. exact paint_event. Qed.
+
+(* closing a subpath that is already closed (h after h or re; s, b, b* after them) adds nothing *)
+Theorem C16_close_idempotent : forall p, close_path (close_path p) = close_path p.
+Proof. exact close_path_idem. Qed.
+Theorem C16_close_closed : forall p, ends_closed p = true -> close_path p = p.
+Proof. exact close_path_closed. Qed.
 
 (* one straight segment under any matrix: a line between the transformed end points *)
 Theorem C16_line : forall g st fi eo c x0 y0 x1 y1 (close : bool),
@@ -52,8 +58,7 @@ Proof. exact re_is_rect_axis. Qed.
 
 Open Scope Z_scope.
 (* non-vacuity: two subpaths (an open triangle and a rectangle via re) under a scaling matrix, painted with b*:
-   the closing h goes to the last subpath only, and -- known finding C16-doubleclose -- turns the already closed
-   rectangle into a six-point curve *)
+   the closing h concerns the last subpath only, and that one is already closed (re): it stays a rectangle *)
 Example C16_nonvacuous :
   let prog := [IOpnd (ONum 2); IOpnd (ONum 0); IOpnd (ONum 0); IOpnd (ONum 3); IOpnd (ONum 5); IOpnd (ONum 7); IOp Kcm;
                IOpnd (ONum (1#2)); IOp Kw; IOpnd (ONum 1); IOpnd (ONum 0); IOpnd (ONum 0); IOp KRG;
@@ -62,7 +67,7 @@ Example C16_nonvacuous :
                IOpnd (ONum 20); IOpnd (ONum 20); IOpnd (ONum 5); IOpnd (ONum 4); IOp Kre; IOp Kbstar] in
   map (fun sh => (match skind_ sh with KLine => 0 | KRect => 1 | KCurve => 2 end, length (spts sh), sstroke sh, sevenodd sh))
       (flat_map shapes_of_event (run_page 2 ident (Res [] [] []) prog))
-  = [(2, 3%nat, true, true); (2, 6%nat, true, true)].
+  = [(2, 3%nat, true, true); (1, 4%nat, true, true)].
 Proof. vm_compute. reflexivity. Qed.
 
 Print Assumptions C16_no_residue.
@@ -72,3 +77,6 @@ Print Assumptions C16_paint_event.
 Print Assumptions C16_line.
 Print Assumptions C16_rectangle.
 Print Assumptions C16_nonvacuous.
+
+Print Assumptions C16_close_idempotent.
+Print Assumptions C16_close_closed.
